@@ -1,6 +1,7 @@
 import TTProofs.Lemmas.C12_Instances
 import TTProofs.Lemmas.C12_Sort
 import TTProofs.Lemmas.C12_Pruning
+import TTProofs.Lemmas.C01_Pruning
 /-!
 # C12 — gradients are the derivatives of the reported densities (property theorems)
 
@@ -449,7 +450,7 @@ theorem ratioFwd_eq_eval (n : Nat) (b x : Nat → ℝ) (fwd : List (Nat × Nat))
       eval (ratioEnv n b x) (heightsE fwd bV xV k) := by
   unfold C06.ratioFwd heightsE
   exact (eval_heights_fold (ratioEnv n b x) n b x bV xV (fun j => by simp [bV, eval, ratioEnv_b])
-    (fun j => by simp [xV, eval, ratioEnv_x]) fwd xV x (fun j => by simp [xV, eval, ratioEnv_x]) k).symm
+    (fun j => by simp [xV, eval, ratioEnv_x]) fwd xV ⟨x⟩ (fun j => by simp [xV, eval, ratioEnv_x]) k).symm
 
 /-- **Ratio transform: every node height in every ratio / in the root height** — unconditional
 (the transform uses only `+ − ×`). -/
@@ -534,6 +535,58 @@ example (π : Fin 4 → ℝ) (tip : Nat → Fin 4 → ℝ) (mat : Nat → Fin 4 
         (.node 4 (.node 3 (.leaf 0) (.leaf 1)) (.leaf 2))) τ₀ :=
   hasDerivAt_pruning_branch π tip mat 0 C04.jc69P _ τ₀ (fun i j => hasDerivAt_jc69P τ₀ i j) _
     (by decide) (by decide)
+
+/-- the tree-recursive form used above is the recursive form of the C01 development -/
+theorem partialT_eq_partialRec1 {R : Type} [Add R] [Mul R] [Zero R] {S : Nat} (tip : Nat → Fin S → R)
+    (mat : Nat → Fin S → Fin S → R) : ∀ t : C01.ITree, partialT tip mat t = C01.partialRec1 tip mat t
+  | .leaf _ => rfl
+  | .node _ l r => by
+    funext s
+    simp only [partialT, C01.partialRec1, partialT_eq_partialRec1 tip mat l, partialT_eq_partialRec1 tip mat r]
+
+/-- **Derivative of the pruning LOOP (`TT.C01.siteLik`, the model of `calculate_treelikelihood_discrete`)
+in a branch length**, all rate categories: on a well-indexed tree with pairwise distinct branches, if the
+matrices of branch `e` depend on `τ` with entrywise derivatives `P' k`, the site likelihood returned by the loop
+has as derivative the value the loop returns with the matrices of that branch replaced by `P'`. -/
+theorem hasDerivAt_siteLik_branch {K S : Nat} (π : Fin S → ℝ) (props : Fin K → ℝ) (mats : C01.Mats ℝ K S)
+    (tip : Nat → Fin S → ℝ) (n i : Nat) (l r : C01.ITree) (hwf : C01.WF n (.node i l r))
+    (hnd : (edges (.node i l r)).Nodup) (e : Nat) (he : e ∈ edges (.node i l r))
+    (P : ℝ → Fin K → Fin S → Fin S → ℝ) (P' : Fin K → Fin S → Fin S → ℝ) (τ₀ : ℝ)
+    (hP : ∀ k a b, HasDerivAt (fun τ => P τ k a b) (P' k a b) τ₀) :
+    HasDerivAt
+      (fun τ => (C01.siteLik π props (Function.update mats e (P τ)) (C01.postorder (.node i l r)) n tip).getD 0)
+      ((C01.siteLik π props (Function.update mats e P') (C01.postorder (.node i l r)) n tip).getD 0) τ₀ := by
+  have hupd : ∀ (M : Fin K → Fin S → Fin S → ℝ) (k : Fin K),
+      (fun b => (Function.update mats e M) b k) = Function.update (fun b => mats b k) e (M k) := by
+    intro M k
+    funext b
+    by_cases hb : b = e
+    · subst hb; simp
+    · simp [Function.update_of_ne hb]
+  have hval : ∀ M : Fin K → Fin S → Fin S → ℝ,
+      (C01.siteLik π props (Function.update mats e M) (C01.postorder (.node i l r)) n tip).getD 0
+        = ∑ s, π s * ∑ k, props k * partialT tip (Function.update (fun b => mats b k) e (M k)) (.node i l r) s := by
+    intro M
+    simp only [C01.siteLik, C01.rootPartial_postorder _ tip n i l r hwf, Option.map_some, Option.getD_some,
+      C01.rootSum, TT.sumFin_eq_sum, C01.partialRec, hupd, partialT_eq_partialRec1]
+  simp only [hval]
+  refine HasDerivAt.fun_sum fun s _ => HasDerivAt.const_mul (π s) (HasDerivAt.fun_sum fun k _ => ?_)
+  exact (hasDerivAt_partialT_branch tip (fun b => mats b k) e (fun τ => P τ k) (P' k) τ₀ (fun a b => hP k a b)
+    (.node i l r) hnd he s).const_mul (props k)
+
+/-- instance: JC69 with two rate categories on the branch above tip 1 of `((0,1)3,2)4` -/
+example (π : Fin 4 → ℝ) (props : Fin 2 → ℝ) (rate : Fin 2 → ℝ) (mats : C01.Mats ℝ 2 4) (tip : Nat → Fin 4 → ℝ)
+    (τ₀ : ℝ) :
+    HasDerivAt
+      (fun τ => (C01.siteLik π props (Function.update mats 1 (fun k => C04.jc69P (rate k * τ)))
+        (C01.postorder (.node 4 (.node 3 (.leaf 0) (.leaf 1)) (.leaf 2))) 3 tip).getD 0)
+      ((C01.siteLik π props (Function.update mats 1 (fun k a b => rate k *
+          partialD (if a = b then jcDiagE (var 0) else jcOffE (var 0)) (envOf [rate k * τ₀]) 0))
+        (C01.postorder (.node 4 (.node 3 (.leaf 0) (.leaf 1)) (.leaf 2))) 3 tip).getD 0) τ₀ := by
+  refine hasDerivAt_siteLik_branch π props mats tip 3 4 (.node 3 (.leaf 0) (.leaf 1)) (.leaf 2)
+    ⟨by decide, by decide, by decide⟩ (by decide) 1 (by decide) _ _ τ₀ (fun k a b => ?_)
+  have h := (hasDerivAt_jc69P (rate k * τ₀) a b).comp τ₀ ((hasDerivAt_id τ₀).const_mul (rate k))
+  simpa [Function.comp_def, mul_comm] using h
 
 /-! ## further instances of the hypotheses -/
 
